@@ -133,7 +133,10 @@ Definition step (o : obj) (p : op) : obj * ans :=
                 (map (zero_at k) (derivs o)) (units o) false empty_cache, AOk)
   | MSetAll v m =>
       if ro o then (o, AErr)
-      else (mko (shaped o) (map (fun _ => v) (vals o)) (map (fun _ => m) (mask o)) false
+      else (mko (shaped o) (map (fun _ => v) (vals o)) (map (fun _ => m) (mask o))
+                (* a shaped target goes through the general path: its mask stays one bool
+                   only if it was one and the value's is the same; a shapeless target is replaced *)
+                (if shaped o then marr o || negb (Bool.eqb (hd false (mask o)) m) else false)
                 (map (fun d => (fst d, map (fun _ => 0%Z) (snd d))) (derivs o))
                 (units o) false empty_cache, AOk)
   | MAddNum z =>
